@@ -111,7 +111,7 @@ type Differ struct {
 	fullSweep bool
 
 	// what the history exercised (for the non-triviality rule)
-	Evictions, StaleOps, Cleans, CleanDeletes, FailedCreates, Faults, MDDrops, ScopeHides int
+	Evictions, StaleOps, Cleans, CleanDeletes, FailedCreates, Faults, MDDrops, ScopeHides, Gaps int
 }
 
 // NewDiffer builds a differ over an empty store of the given capacity.
@@ -436,16 +436,38 @@ func (d *Differ) stepCreate(op Op, key string) {
 	}
 	if wl > 0 {
 		content := Content(op.Key, b.Gen, wl)
-		// chunked: Write then WriteAt for the tail
 		cut := wl / 2
-		n1, e1 := h.Write(content[:cut])
-		n2, e2 := h.WriteAt(content[cut:], int64(cut))
-		if e1 != nil || e2 != nil || n1 != cut || n2 != wl-cut {
-			d.fail("handle/write-on-fresh-blob-failed", op, map[string]interface{}{"e1": fmt.Sprint(e1), "e2": fmt.Sprint(e2), "n1": n1, "n2": n2})
-			return
+		switch {
+		case op.Variant == 2 && cut > 0:
+			// out of order, as a piece writer does: only the tail is written,
+			// the head stays unwritten (reads as zeros) until a later WriteAt
+			n2, e2 := h.WriteAt(content[cut:], int64(cut))
+			if e2 != nil || n2 != wl-cut {
+				d.fail("handle/write-on-fresh-blob-failed", op, map[string]interface{}{"e2": fmt.Sprint(e2), "n2": n2})
+				return
+			}
+			b.WriteBlobAt(content[cut:], int64(cut))
+			d.Gaps++
+		case op.Variant == 3 && cut > 0:
+			// tail first, then the head
+			n2, e2 := h.WriteAt(content[cut:], int64(cut))
+			n1, e1 := h.WriteAt(content[:cut], 0)
+			if e1 != nil || e2 != nil || n1 != cut || n2 != wl-cut {
+				d.fail("handle/write-on-fresh-blob-failed", op, map[string]interface{}{"e1": fmt.Sprint(e1), "e2": fmt.Sprint(e2), "n1": n1, "n2": n2})
+				return
+			}
+			b.WriteBlobAt(content, 0)
+		default:
+			// front to back: Write then WriteAt for the tail
+			n1, e1 := h.Write(content[:cut])
+			n2, e2 := h.WriteAt(content[cut:], int64(cut))
+			if e1 != nil || e2 != nil || n1 != cut || n2 != wl-cut {
+				d.fail("handle/write-on-fresh-blob-failed", op, map[string]interface{}{"e1": fmt.Sprint(e1), "e2": fmt.Sprint(e2), "n1": n1, "n2": n2})
+				return
+			}
+			b.WriteBlobAt(content, 0)
+			hi.off = int64(cut)
 		}
-		b.WriteBlobAt(content, 0)
-		hi.off = int64(cut)
 	}
 }
 
@@ -610,11 +632,20 @@ func (d *Differ) stepHandle(op Op) {
 		if len(op.Data) == 0 {
 			return
 		}
-		off := op.Off % (cur + 1) // no holes: C12 owns sparse-write semantics
+		// mostly inside or at the end of the written extent, sometimes past it:
+		// the gap below the offset must read as zeros (non-empty writes only;
+		// zero-length writes past the end are C12's)
+		off := op.Off % (cur + 1)
+		if op.Variant == 1 {
+			off = cur + 1 + op.Off%24
+		}
 		n, err := hi.h.WriteAt(op.Data, off)
 		if err != nil || n != len(op.Data) {
 			d.fail("handle/writeat-failed-on-live-blob", op, map[string]interface{}{"n": n, "err": fmt.Sprint(err)})
 			return
+		}
+		if off > cur {
+			d.Gaps++
 		}
 		b.WriteBlobAt(op.Data, off)
 	}
